@@ -131,8 +131,11 @@ func checkImplementation(
 		if requirePointer {
 			// For &Interface, we need pointer receiver methods
 			// (but value receiver methods are also OK per Go spec:
-			// method set of *T includes methods with receiver T or *T)
-			typeMethods[methodKey{method.PkgPath, method.Name}] = method
+			// method set of *T includes methods with receiver T or *T);
+			// the methods of an interface type T are not methods of *T
+			if !method.ValueOnly {
+				typeMethods[methodKey{method.PkgPath, method.Name}] = method
+			}
 		} else {
 			// For Interface (no &), we need value receiver methods only
 			if !method.ReceiverIsPointer {
